@@ -233,7 +233,7 @@ def _instantiate(helper, args, line):
     for i, (pn, pt) in enumerate(helper['params']):
         a = args[i] if i < len(args) else ('int', 0)
         t = ir.top_nocast(a)
-        if i not in assigned and t[0] in ('param', 'local', 'func', 'global', 'int', 'enum', 'zero'):
+        if i not in assigned and t[0] in ('param', 'local', 'func', 'global', 'int', 'enum', 'zero', 'str'):
             subst[i] = a
         else:
             nid = '%s$%s$%d' % (helper['name'], pn, tag)
@@ -273,6 +273,136 @@ def _calls_whole(e):
     return None
 
 
+# functions outside the unit that only compute an address from their argument (duplicating a call to one of them changes nothing)
+PURE_EXTERN = {'header'}
+
+
+def _expression_template(h, funcs):
+    """If the helper is an expression in disguise — local declarations with initialisers followed by `return e`, nothing assigned,
+    nothing address-taken — return (e with the locals expanded, number of uses of each parameter, is-pure flag per duplicated part
+    is checked here); else None."""
+    b = h['body']
+    stmts = b['body'] if b['k'] == 'block' else [b]
+    if not stmts or stmts[-1]['k'] != 'return' or stmts[-1]['expr'] is None:
+        return None
+    inits = {}
+    for st in stmts[:-1]:
+        if st['k'] != 'decl':
+            return None
+        for d in st['decls']:
+            if d['init'] is None or d.get('static'):
+                return None
+            inits[d['id']] = d['init']
+    exprs = list(inits.values()) + [stmts[-1]['expr']]
+    for e in exprs:
+        for x in ir.walk(e):
+            if x[0] == 'assign' or (x[0] == 'un' and x[1] in ('pre++', 'pre--', 'post++', 'post--')):
+                return None
+            if x[0] == 'un' and x[1] == '&' and ir.top_nocast(x[2])[0] in ('local', 'param'):
+                return None
+            if x[0] in ('compound', 'initlist', 'va_arg'):
+                return None
+
+    def pure(e, depth=0):
+        for x in ir.walk(e):
+            if x[0] == 'call':
+                nm = ir.callee_name(x)
+                if nm in PURE_EXTERN:
+                    continue
+                f = funcs.get(nm)
+                if f is None or f.get('body') is None or depth > 2:
+                    return False
+                fb = f['body']['body'] if f['body']['k'] == 'block' else [f['body']]
+                if len(fb) != 1 or fb[0]['k'] != 'return' or fb[0]['expr'] is None or not pure(fb[0]['expr'], depth + 1):
+                    return False
+                if any(y[0] == 'assign' for y in ir.walk(fb[0]['expr'])):
+                    return False
+        return True
+
+    def uses(e, what):
+        return sum(1 for x in ir.walk(e) if x[0] == 'local' and x[2] == what)
+    # expand the locals (declaration order: later initialisers may mention earlier locals)
+    order = list(inits)
+    expanded = {}
+    for lid in order:
+        e = inits[lid]
+        e = ir.rebuild(e, lambda x: expanded[x[2]] if x[0] == 'local' and x[2] in expanded else x)
+        expanded[lid] = e
+    ret = stmts[-1]['expr']
+    for lid in order:
+        total = uses(ret, lid) + sum(uses(inits[o], lid) for o in order)
+        if total > 1 and not pure(expanded[lid]):
+            return None
+        if total == 0 and not pure(expanded[lid]):
+            return None       # an initialiser evaluated for its effect
+    tmpl = ir.rebuild(ret, lambda x: expanded[x[2]] if x[0] == 'local' and x[2] in expanded else x)
+    if any(x[0] == 'local' for x in ir.walk(tmpl)):
+        return None
+    nuse = {}
+    for x in ir.walk(tmpl):
+        if x[0] == 'param':
+            nuse[x[2]] = nuse.get(x[2], 0) + 1
+    return tmpl, nuse, pure
+
+
+def substitute_expression_helpers(functions_of_unit, names):
+    """Replace calls to the named helpers that are expressions in disguise by the expression, wherever they occur (conditions
+    included).  An argument that would be evaluated a different number of times than in the call (parameter unused, or used more
+    than once) must be free of effects."""
+    count = 0
+    for _round in range(3):
+        tmpls = {}
+        for n in names:
+            h = functions_of_unit.get(n)
+            if h is None or h.get('body') is None:
+                continue
+            if any(ir.callee_name(c) == n for c, _ in ir.all_calls(h['body'])):
+                continue
+            t = _expression_template(h, functions_of_unit)
+            if t is not None:
+                tmpls[n] = (t, h)
+        if not tmpls:
+            break
+        changed = 0
+        for fname, f in list(functions_of_unit.items()):
+            if f.get('body') is None:
+                continue
+            hit = [0]
+
+            def fe(e):
+                def g(x):
+                    if x[0] != 'call' or ir.callee_name(x) not in tmpls or ir.callee_name(x) == fname:
+                        return x
+                    (tmpl, nuse, pure), h = tmpls[ir.callee_name(x)]
+                    args = list(x[2])
+                    if len(args) != len(h['params']):
+                        return x
+                    for i, a in enumerate(args):
+                        if nuse.get(i, 0) != 1 and ir.top_nocast(a)[0] not in ('param', 'local', 'func', 'global', 'int', 'enum', 'zero', 'str') and not pure(a):
+                            return x
+                    hit[0] += 1
+                    rtype = (h.get('type') or '').split('(')[0].strip()
+                    body = ir.rebuild(tmpl, lambda y: args[y[2]] if y[0] == 'param' else y)
+                    tb = ir.top_nocast(body)
+                    logical = (tb[0] == 'bin' and tb[1] in ('<', '>', '<=', '>=', '==', '!=', '&&', '||')) or (tb[0] == 'un' and tb[1] == '!')
+                    if rtype in ('bool', '_Bool') and logical:
+                        return body
+                    return ('cast', rtype, body) if rtype and rtype not in ('void',) else body
+                return ir.rebuild(e, g)
+            nb = _map_stmt(f['body'], fe, None)
+            if hit[0]:
+                g2 = dict(f)
+                g2['body'] = nb
+                g2['spliced'] = True
+                functions_of_unit[fname] = g2
+                changed += hit[0]
+        count += changed
+        if not changed:
+            break
+    return count
+
+
+
 def splice_into(fn, helpers):
     """copy of fn with the calls to the given helpers (name -> fn dict) spliced in, whatever their names"""
     tmp = {fn['name']: fn}
@@ -290,6 +420,9 @@ def splice_new_helpers(functions_of_unit, force=None):
         new = {n: f for n, f in functions_of_unit.items() if n not in known and f.get('body') is not None}
     if not new:
         return 0
+    nsub = substitute_expression_helpers(functions_of_unit, list(new)) if force is None else 0
+    if nsub:
+        new = {n: functions_of_unit[n] for n in new}
     # helpers that call themselves (directly) are left alone; so are pure accessors (`return expr;`), which the normaliser
     # already expands wherever an expression mentions them
     for n in list(new):
@@ -424,4 +557,4 @@ def splice_new_helpers(functions_of_unit, force=None):
             g['body'] = nb
             g['spliced'] = True
             functions_of_unit[n] = g
-    return count[0]
+    return count[0] + nsub
